@@ -17,7 +17,10 @@
    for each mode and judged here (Format_Trace.tla); nothing about the LAYOUT of f is stated.
 
    A record r (one source text, one way of invoking the formatter):
-     d0            canonical structural dump of T(src)          (string; equal dumps <=> equal trees)
+     d0            canonical structural dump of T(src)          (string; equal dumps <=> equal trees).
+                   Not part of a dump, because not structure: the function cache key (an output of the
+                   compact printer itself) and the same-line flags of comments (layout of the text the
+                   tree was read from; a mishandled flag shows in the byte-for-byte law of C03)
      cm            T(src) contains a comment in a statement list
      t0, tC        the trees T(src), T(fC) as TLA+ values       (only when cm; else absent)
      pan           the formatter panicked on an accepted program
